@@ -204,6 +204,13 @@ def loadCtx (st : Store) : Ctx :=
 
 /-! ### Requests -/
 
+/-- GUID draws are carried through the builder as a byte string whose *length* is the draw index
+(an encoding that is injective for every index; the text of a GUID never matters to the state
+machine). -/
+def guidBytes (n : Nat) : Bytes := List.replicate n 0
+
+def guidOf (b : Bytes) : Nat := b.length
+
 def nextGuid (w : World) : Nat × World := (w.nGuid, { w with nGuid := w.nGuid + 1 })
 
 /-- The builder state as the wire request summary. -/
@@ -268,7 +275,7 @@ def sendRequest (kind : ReqKind) (b : Request.Builder) (w : World) : HttpOutcome
   let w := if w.cup.isSome then { w with nNonce := w.nNonce + 1 } else w
   let (outcome, w) := popHttp kind w
   let req : WireReq := { kind := kind, source := b.params.source,
-                         sessionDraw := b.sessionId.map Der.beNat, requestDraw := b.requestId.map Der.beNat,
+                         sessionDraw := b.sessionId.map guidOf, requestDraw := b.requestId.map guidOf,
                          nonceDraw := nonce, apps := wireApps b }
   (outcome, emit (.http req outcome) w)
 
@@ -293,8 +300,6 @@ def omahaRequest (kind : ReqKind) (b : Request.Builder) (w : World) : Except Req
     let (outcome, w) := sendRequest kind b w
     handleOutcome outcome w
 
-/-- GUID draws are carried through the builder as big-endian bytes of the draw index. -/
-def guidBytes (n : Nat) : Bytes := [UInt8.ofNat (n / 16777216), UInt8.ofNat (n / 65536 % 256), UInt8.ofNat (n / 256 % 256), UInt8.ofNat (n % 256)]
 
 def withRequestId (b : Request.Builder) (w : World) : Request.Builder × World :=
   let (g, w) := nextGuid w
